@@ -506,6 +506,9 @@ func (self *Value) SetByPath(sub Node, path ...Path) (exist bool, err error) {
 		// exchange PathFieldName to create PathFieldId
 		if targetPath.t == PathFieldName {
 			f := desc.Message().ByName(targetPath.str())
+			if f == nil {
+				return false, errValue(meta.ErrUnknownField, fmt.Sprintf("field name '%s' is not defined in IDL", targetPath.str()), nil)
+			}
 			targetPath = NewPathFieldId(f.Number())
 			desc = f.Type()
 		}
@@ -627,6 +630,9 @@ func (self *Value) UnsetByPath(path ...Path) error {
 	
 	if p.t == PathFieldName {
 		f := desc.Message().ByName(p.str())
+		if f == nil {
+			return errValue(meta.ErrUnknownField, fmt.Sprintf("field name '%s' is not defined in IDL", p.str()), nil)
+		}
 		p = NewPathFieldId(f.Number())
 	} 
 
